@@ -10,6 +10,7 @@ from gram import random_grammar, Gram
 
 LEVEL = "proof"
 PROP_MODULE = "Rustemo.Props.C04"
+CONSTRUCTION_MODULE = "Rustemo.Props.C04Construction"
 
 LIT = [
     "S: L Te R | R;\nL: Ts R | Ti;\nR: L;\nterminals\nTe: '=';\nTs: '*';\nTi: 'i';\n",                   # dragon 4.49 (LALR, not SLR)
@@ -80,6 +81,8 @@ def extra(c):
 def run(rep, tier, seed):
     rng = random.Random(seed)
     proofs_ok = lean_obligations(rep, PROP_MODULE)
+    # the construction theorems (model of LRTable::new: structural + complete for every grammar) are audited here too
+    proofs_ok = lean_obligations(rep, CONSTRUCTION_MODULE) and proofs_ok
     ok, log = build_harness()
     if not ok:
         rep.oblige("cargo build harness/dyn against /repo", False, log[-1500:])
